@@ -193,7 +193,7 @@ func (e *Engine) findDFA(haystack []byte) *Match {
 
 		// Use anchored search from prefilter position - O(m) not O(n)!
 		// This is much faster than searching the entire haystack
-		start, end, matched := e.pikevm.SearchAt(haystack, pos)
+		start, end, matched := e.pikevmSearchAt(haystack, pos)
 		if !matched {
 			return nil
 		}
@@ -211,7 +211,7 @@ func (e *Engine) findDFA(haystack []byte) *Match {
 	// DFA confirmed a match exists - use PikeVM for exact bounds.
 	// The match may start arbitrarily far before endPos, so the search
 	// must begin at the start of the haystack.
-	start, end, matched := e.pikevm.SearchAt(haystack, 0)
+	start, end, matched := e.pikevmSearchAt(haystack, 0)
 	if !matched {
 		return nil
 	}
@@ -252,7 +252,7 @@ func (e *Engine) findAdaptive(haystack []byte) *Match {
 		}
 
 		// Use anchored search from prefilter position - O(m) not O(n)!
-		start, end, matched := e.pikevm.SearchAt(haystack, pos)
+		start, end, matched := e.pikevmSearchAt(haystack, pos)
 		if !matched {
 			return nil
 		}
@@ -269,7 +269,7 @@ func (e *Engine) findAdaptive(haystack []byte) *Match {
 			// DFA succeeded - get exact match bounds from NFA.
 			// The match may start arbitrarily far before endPos, so the
 			// search must begin at the start of the haystack.
-			start, end, matched := e.pikevm.SearchAt(haystack, 0)
+			start, end, matched := e.pikevmSearchAt(haystack, 0)
 			if !matched {
 				return nil
 			}
@@ -291,7 +291,7 @@ func (e *Engine) findAdaptive(haystack []byte) *Match {
 // This preserves absolute positions for correct anchor handling.
 func (e *Engine) findNFAAt(haystack []byte, at int) *Match {
 	atomic.AddUint64(&e.stats.NFASearches, 1)
-	start, end, matched := e.pikevm.SearchAt(haystack, at)
+	start, end, matched := e.pikevmSearchAt(haystack, at)
 	if !matched {
 		return nil
 	}
@@ -318,7 +318,7 @@ func (e *Engine) findDFAAt(haystack []byte, at int) *Match {
 			return NewMatch(pos, pos+literalLen, haystack)
 		}
 		// Fallback to NFA if LiteralLen not available (e.g., Teddy multi-pattern)
-		start, end, matched := e.pikevm.SearchAt(haystack, at)
+		start, end, matched := e.pikevmSearchAt(haystack, at)
 		if !matched {
 			return nil
 		}
@@ -335,7 +335,7 @@ func (e *Engine) findDFAAt(haystack []byte, at int) *Match {
 
 	// DFA returns end position, but doesn't track start position
 	// Fall back to NFA to get exact match bounds
-	start, end, matched := e.pikevm.SearchAt(haystack, at)
+	start, end, matched := e.pikevmSearchAt(haystack, at)
 	if !matched {
 		return nil
 	}
@@ -352,7 +352,7 @@ func (e *Engine) findAdaptiveAt(haystack []byte, at int) *Match {
 		if pos != -1 {
 			e.putSearchState(state)
 			// DFA succeeded - need to find start position from NFA
-			start, end, matched := e.pikevm.SearchAt(haystack, at)
+			start, end, matched := e.pikevmSearchAt(haystack, at)
 			if matched {
 				return NewMatch(start, end, haystack)
 			}
